@@ -64,7 +64,9 @@ type CallerSpec struct {
 	SlowMs    int   `json:"sl"` // the server holds the response of this request for so long
 	Async     bool  `json:"as"` // use SendRequestAsync (no timer of its own: bounded by the context only)
 	CbMs      int   `json:"cb"`  // an async callback keeps the shared run loop busy for so long
-	Key       int   `json:"key"` // Kind 4 (ResolveLock through reqCollapse): collapse key
+	Key       int   `json:"key"` // Kind 4 (ResolveLock through reqCollapse): start version (multiple of 10)
+	Var       int   `json:"var"` // Kind 4: which component differs from the plain full-region request: 0 none, 1 / 2 two different
+	// TxnInfos (batch resolve), 3 Keys (resolve lock lite), 5 another region, 4 another commit version
 	Pool      int   `json:"pl"` // which store (connection pool) the call goes to
 	Long      bool  `json:"lg"` // "no deadline": sync calls get a 30 s time-out, async calls a context without deadline;
 	// such a call must complete in the scenario's drain phase (finite watchdog)
@@ -180,11 +182,28 @@ func echo(r *tikvpb.BatchCommandsRequest_Request) *tikvpb.BatchCommandsResponse_
 	case *tikvpb.BatchCommandsRequest_Request_ResolveLock:
 		// no payload field in the response: the start version travels back in the (otherwise unused) Abort text
 		return &tikvpb.BatchCommandsResponse_Response{Cmd: &tikvpb.BatchCommandsResponse_Response_ResolveLock{ResolveLock: &kvrpcpb.ResolveLockResponse{
-			Error: &kvrpcpb.KeyError{Abort: fmt.Sprintf("c%d", c.ResolveLock.GetStartVersion())}}}}
+			Error: &kvrpcpb.KeyError{Abort: fmt.Sprintf("c%d", resolveLockFingerprint(c.ResolveLock))}}}}
 	case *tikvpb.BatchCommandsRequest_Request_Coprocessor:
 		return &tikvpb.BatchCommandsResponse_Response{Cmd: &tikvpb.BatchCommandsResponse_Response_Coprocessor{Coprocessor: &coprocessor.Response{Data: append([]byte(nil), c.Coprocessor.Data...)}}}
 	}
 	return &tikvpb.BatchCommandsResponse_Response{Cmd: &tikvpb.BatchCommandsResponse_Response_Empty{Empty: &tikvpb.BatchCommandsEmptyResponse{TestId: 1 << 62}}}
+}
+
+// resolveLockFingerprint identifies the COMMAND the server executed: start version (a multiple of 10) plus a digit for
+// the component in which it differs from the plain full-region request (see CallerSpec.Var).
+func resolveLockFingerprint(r *kvrpcpb.ResolveLockRequest) uint64 {
+	fp := r.GetStartVersion()
+	for _, t := range r.GetTxnInfos() {
+		fp += t.GetStatus()
+	}
+	fp += 3 * uint64(len(r.GetKeys()))
+	if r.GetCommitVersion() > r.GetStartVersion()+1 {
+		fp += 4 * (r.GetCommitVersion() - r.GetStartVersion() - 1)
+	}
+	if reg := r.GetContext().GetRegionId(); reg > 7 {
+		fp += 5 * (reg - 7)
+	}
+	return fp
 }
 
 func respPayload(r *tikvpb.BatchCommandsResponse_Response) int64 {
@@ -766,8 +785,22 @@ func mkReq(c int, cs CallerSpec) *tikvrpc.Request {
 		req = tikvrpc.NewRequest(tikvrpc.CmdCop, &coprocessor.Request{Data: pay})
 	case 4:
 		// full-region ResolveLock (no keys, no txn infos): what reqCollapse collapses by (region, start version, async)
-		req = tikvrpc.NewRequest(tikvrpc.CmdResolveLock, &kvrpcpb.ResolveLockRequest{StartVersion: uint64(cs.Key), CommitVersion: uint64(cs.Key) + 1})
-		req.Context.RegionId = 7
+		rl := &kvrpcpb.ResolveLockRequest{StartVersion: uint64(cs.Key), CommitVersion: uint64(cs.Key) + 1}
+		region := uint64(7)
+		switch cs.Var {
+		case 1:
+			rl.TxnInfos = []*kvrpcpb.TxnInfo{{Txn: uint64(cs.Key), Status: 1}}
+		case 2:
+			rl.TxnInfos = []*kvrpcpb.TxnInfo{{Txn: uint64(cs.Key), Status: 2}}
+		case 3:
+			rl.Keys = [][]byte{[]byte("k")}
+		case 4:
+			rl.CommitVersion++
+		case 5:
+			region = 8
+		}
+		req = tikvrpc.NewRequest(tikvrpc.CmdResolveLock, rl)
+		req.Context.RegionId = region
 	default:
 		req = tikvrpc.NewRequest(tikvrpc.CmdRawGet, &kvrpcpb.RawGetRequest{Key: pay})
 	}
@@ -984,7 +1017,7 @@ func runScenario(sc *Scenario) {
 			}
 			exp, willCancel := int64(c), 0
 			if cs.Kind == 4 {
-				exp = int64(cs.Key) // a collapsed ResolveLock shares the response of its key
+				exp = int64(cs.Key + cs.Var) // the fingerprint of its own command (shared by everybody it may be collapsed with)
 			}
 			if cs.CancelUs >= 0 {
 				willCancel = 1
@@ -1576,8 +1609,16 @@ func genScenario(r *rand.Rand, id int, class string) *Scenario {
 		for kx := 0; kx < nkeys; kx++ {
 			key := 100*(id%90) + 10*(kx+1) // unique per scenario: the singleflight group is a package global
 			m := 2 + r.Intn(3)
+			// request pairs on one (region, start version) that are equal or differ in exactly ONE component of the command --
+			// TxnInfos (batch resolve), Keys (resolve lock lite), region -- overlapping in time, through the sync and the async
+			// entry of the wrapper: only equal plain full-region requests may share a flight
+			pair := [][2]int{{0, 0}, {0, 1}, {1, 2}, {1, 1}, {0, 3}, {0, 5}, {2, 1}, {3, 3}, {1, 0}}[r.Intn(9)]
+			if os.Getenv("VERIF_C18_COMMITVAR") == "1" && r.Intn(3) == 0 {
+				pair = [2]int{0, 4}
+			}
+			allAsync := r.Intn(2) == 0
 			for i := 0; i < m; i++ {
-				cs := CallerSpec{Kind: 4, Key: key, TimeoutMs: normalTo, CancelUs: -1, StartUs: int64(i)*1500 + r.Int63n(500), Async: r.Intn(3) == 0}
+				cs := CallerSpec{Kind: 4, Key: key, Var: pair[i%2], TimeoutMs: normalTo, CancelUs: -1, StartUs: int64(i)*1500 + r.Int63n(500), Async: allAsync || r.Intn(3) == 0}
 				if i == 0 { // the caller that starts the shared request
 					switch r.Intn(3) {
 					case 0:
